@@ -616,6 +616,8 @@ func checkC18(p *core.Program, r *core.Report) {
 	// value and category are unchanged keeps the category name of the previous language (imported from C07/R5)
 	r.Rule("R5", "a saved result always replaces the stored one (imported from C07/R5): category_localized follows the language in force at the latest routing even when value and category did not change")
 	importObligations(p, r, "C07", map[string]bool{"R5": true}, "R5", "the result kept in the run carries the category name of an earlier language")
+	r.Rule("R6", "the language preference list is computed from the session's current environment: session.MergedEnvironment is not a stale cache (imported from C19/R4)")
+	importObligations(p, r, "C19", map[string]bool{"R4": true}, "R6", "the allowed languages consulted for the contact's language are those of an environment that has since been replaced")
 }
 
 // isDefaultLanguageOf: v is X.DefaultLanguage() where X comes from a call of the named session method.
